@@ -359,6 +359,12 @@ def wire_check(prop, tier, seed, t0, assumptions, extra_viol=(), extra_cov=None,
     cov = base_coverage(run)
     relevant = sum(1 for t, cid, head, opsl in iter_real(run) for o in opsl if ops is None or o[1] in ops) if ops else cov['evaluations']
     cov['ops_relevant_to_property'] = relevant
+    st = vlib.reach_stats()
+    if st:
+        cov['states'] = sum(a for a, b in st)
+        cov['transitions'] = sum(a * b for a, b in st)
+        cov['closure_obligations'] = len(st)
+        cov['closed_sets'] = "per configuration (reachable states, macro steps): " + ' '.join("%dx%d" % (a, b) for a, b in st)
     cov['oracle_histories'] = orc['cases']
     cov['oracle_ops_judged'] = orc['ops']
     cov['traces_validated_against_impl'] = cov['evaluations'] + orc['ops']
@@ -484,12 +490,12 @@ def fault_oracle(run):
     return viol, n
 
 def recovery_oracle(run, seed):
-    """after a failed call: wake_up; update_frame; display_frame must put the same frames on the wire as on a driver
-    where the failing call was never made (reference run of the same suffix after `new`)"""
+    """after a failed call: wake_up; update_frame; display_frame must leave the controller in the same memory and power
+    state as on a driver that never failed = the SAME case run without the injected fault (reference run)"""
     import subprocess
     viol, n = [], 0
-    hexes = {}
-    refs = {}
+    hexes, refs = {}, {}
+    todo = []
     for t, cid, head, ops in iter_real(run, suites=('fault', 'faultdense')):
         if len(ops) < 4 or [o[1] for o in ops[-3:]] != ['wake_up', 'update_frame', 'display_frame']:
             continue
@@ -497,37 +503,44 @@ def recovery_oracle(run, seed):
             continue
         if ops[0][3] is None or not ops[0][3].startswith('OK'):
             continue        # the constructor failed: there is no driver to recover
-        if ops[-4][1] in ('set_lut', 'set_refresh', 'set_border_color', 'set_background_color'):
-            continue        # a failed SETTING change may or may not have taken effect: no unique never-failed reference
-        key = (t['panel'], t['feat'])
-        if key not in refs:
-            if t['feat'] not in hexes:
-                hexes[t['feat']] = corr.build_harness(t['feat'])[0]
-            sc = case_script(t, cid).split('\n')
-            ref_lines = [sc[0].replace(sc[0].split(' ')[1], 'ref', 1)]
-            ref_lines[0] = ' '.join(('fault=none' if x.startswith('fault=') else x) for x in ref_lines[0].split(' '))
-            ref_lines += ['new'] + sc[-4:-1] + ['end']
-            path = os.path.join(vlib.WORK, 'c04-ref-%s-%s.script' % key)
-            open(path, 'w').write('\n'.join(ref_lines) + '\n')
-            r = subprocess.run([hexes[t['feat']], 'run', path], stdout=subprocess.PIPE, stderr=subprocess.PIPE, text=True, env=dict(corr.ENV, EPD_FEAT=t['feat']))
-            R = corr.parse_out(r.stdout)
-            refs[key] = [o for o in list(R.values())[0][1:]]
+        body = '\n'.join(case_script(t, cid).split('\n')[1:])
+        todo.append((t, cid, head, ops, body))
+    # one reference run per distinct (panel, feature set, case body)
+    bykey = {}
+    for (t, cid, head, ops, body) in todo:
+        bykey.setdefault((t['panel'], t['feat'], body), None)
+    by_feat = {}
+    for k in bykey:
+        by_feat.setdefault(k[1], []).append(k)
+    for feat, keys in by_feat.items():
+        if feat not in hexes:
+            hexes[feat] = corr.build_harness(feat)[0]
+        path = os.path.join(vlib.WORK, 'c04-ref-%s.script' % feat)
+        with open(path, 'w') as f:
+            for idx, k in enumerate(keys):
+                f.write("case ref%d panel=%s delay=none busy=s: fault=none scribble=0\n%s\n" % (idx, k[0], k[2]))
+        r = subprocess.run([hexes[feat], 'run', path], stdout=subprocess.PIPE, stderr=subprocess.PIPE, text=True, env=dict(corr.ENV, EPD_FEAT=feat))
+        R = corr.parse_out(r.stdout)
+        for idx, k in enumerate(keys):
+            refs[k] = R.get('ref%d' % idx, [])
+    for (t, cid, head, ops, body) in todo:
+        ref = refs.get((t['panel'], t['feat'], body), [])
         n += 1
-        ref = refs[key]
+        fam = corr.BY_NAME[t['panel']].family
+        def st(lines):
+            # memory and power state: addressing + power/configuration commands + RAM frames with their contents
+            ram = []
+            for e in corr.frames_of(lines):
+                if e[0] == 'F' and e[1] in corr.FAM[fam]['plane']:
+                    ram += ['C %02x' % e[1]] + e[2]
+            return corr.sem_project(lines, 'addr', fam), corr.sem_project(lines, 'power', fam), ram
         for k in range(3):
-            a, b = ops[-3 + k], ref[k] if k < len(ref) else None
-            fam = corr.BY_NAME[t['panel']].family
-            def st(lines):
-                # memory and power state: addressing + power/configuration commands + RAM frames with their contents
-                ram = []
-                for e in corr.frames_of(lines):
-                    if e[0] == 'F' and e[1] in corr.FAM[fam]['plane']:
-                        ram += ['C %02x' % e[1]] + e[2]
-                return corr.sem_project(lines, 'addr', fam), corr.sem_project(lines, 'power', fam), ram
+            a = ops[-3 + k]
+            b = ref[len(ref) - 3 + k] if len(ref) >= 3 else None
             if b is None or st(a[2]) != st(b[2]) or a[3] != b[3]:
                 fd = corr.first_diff(sum(st(a[2]), []), sum(st(b[2]), [])) if b else None
                 viol.append(dict(panel=t['panel'], site=ops[-4][1] if len(ops) >= 4 else '?', clause='recovery-differs:' + a[1],
-                                 detail="%s: after the failure, %s differs from the never-failed driver: %s" % (head, a[1], fd),
+                                 detail="%s: after the failure, %s differs from the same calls on a driver that never failed: %s" % (head, a[1], fd),
                                  replay=dict(kind='trace', panel=t['panel'], feat=t['feat'], script=case_script(t, cid))))
                 break
     return viol, n
